@@ -2,9 +2,11 @@ package main
 
 import (
 	"fmt"
+	"os"
 
 	"github.com/casbin/casbin/v2"
 	"github.com/casbin/casbin/v2/model"
+	fileadapter "github.com/casbin/casbin/v2/persist/file-adapter"
 	"github.com/casbin/govaluate"
 
 	"verif/harness/internal/mem"
@@ -18,6 +20,7 @@ type CaseOpts struct {
 	Watcher string // "", plain, ex, upd, exupd
 	// OraUniverse: string values over which oracle tables of the used built-ins are tabulated
 	OraUniverse []string
+	FAText      *string        // use a filtered file adapter over a file with this content
 	MatchFns    []string       // matching functions that may be registered: tabulated over OraUniverse
 	EvalTab     map[string]*Ex // rule text -> AST, for eval()
 	Customs     map[string]*Ex // custom matcher id -> AST (printed against r/p)
@@ -123,7 +126,15 @@ func StartCase(c *Ctx, ms *MSpec, o CaseOpts) *Sess {
 	}
 	var e *casbin.Enforcer
 	var err error
-	if o.Adapter {
+	if o.FAText != nil {
+		c.W.Op("adapter fa "+proto.Enc(*o.FAText), "#")
+		s.FAPath = scratchFile() + ".fa"
+		if werr := os.WriteFile(s.FAPath, []byte(*o.FAText), 0o644); werr != nil {
+			panic(werr)
+		}
+		s.FA = fileadapter.NewFilteredAdapter(s.FAPath)
+		e, err = casbin.NewEnforcer(m, s.FA)
+	} else if o.Adapter {
 		c.W.Op("adapter mem", "#")
 		s.A = mem.New()
 		for _, l := range o.ALines {
